@@ -156,20 +156,62 @@ def guard_edges(cfg, classify):
     return edges
 
 
-def only_via(cfg, target, pass_edges, src=None):
+def only_via(cfg, target, pass_edges, src=None, ps=True, avoid_nodes=()):
     """True iff every path src->target uses one of pass_edges' *nodes* and leaves it on the
     passing label -- i.e. target is unreachable when the passing edges are removed.
     Returns (ok, witness_path)."""
     if target is None:
         raise AnalysisError('only_via: target node missing')
     src = src or cfg.entry
-    if not pass_edges:
-        p = cfg.path(src, target)
-        return (p is None), p
-    reach = cfg.reachable(src, avoid_edges=pass_edges)
+    if ps:
+        reach = cfg.reachable_ps(src, avoid_edges=pass_edges, avoid_nodes=avoid_nodes)
+    else:
+        reach = cfg.reachable(src, avoid_edges=pass_edges, avoid_nodes=avoid_nodes)
     if target in reach:
-        return False, cfg.path(src, target, avoid_edges=pass_edges)
+        return False, cfg.path(src, target, avoid_edges=pass_edges, avoid_nodes=avoid_nodes)
     return True, None
+
+
+def tests(cfg, text=None, pred=None):
+    """Test nodes whose condition text contains `text` / satisfies pred."""
+    out = []
+    for expr, n in cfg.test_nodes.items():
+        t = norm(expr)
+        if text is not None and text not in t:
+            continue
+        if pred is not None and not pred(expr):
+            continue
+        out.append(n)
+    return sorted(out, key=lambda n: n.id)
+
+
+def stmt_nodes(cfg, text=None, pred=None, kinds=('stmt',)):
+    out = []
+    for n in cfg.nodes:
+        if n.kind not in kinds or n.ast is None:
+            continue
+        if text is not None and text not in norm(n.ast):
+            continue
+        if pred is not None and not pred(n.ast):
+            continue
+        out.append(n)
+    return out
+
+
+def one(lst, what):
+    if len(lst) != 1:
+        raise AnalysisError('anchor %s: expected exactly one, found %d' % (what, len(lst)))
+    return lst[0]
+
+
+def some(lst, what, n=1):
+    if len(lst) < n:
+        raise AnalysisError('anchor %s: expected at least %d, found %d' % (what, n, len(lst)))
+    return lst
+
+
+def fmt(cfg, path):
+    return [cfg.fmt_path(path)] if path else []
 
 
 def never_before(cfg, target, forbidden_nodes, src=None):
@@ -316,3 +358,36 @@ def linear(expr, sign=1, out=None):
         t = norm(expr)
         out[t] = out.get(t, 0) + sign
     return {k: v for k, v in out.items() if v}
+
+
+def le_edge(expr, a, b):
+    """For a comparison between texts a and b: the edge label ('true'/'false') on which a <= b is
+    known to hold, else None.  Recognises a>b, a<=b, b<a, b>=a and the strict variants a>=b, a<b."""
+    if not (isinstance(expr, ast.Compare) and len(expr.ops) == 1):
+        return None
+    l, r, op = norm(expr.left), norm(expr.comparators[0]), type(expr.ops[0])
+    if (l, r) == (a, b):
+        return {ast.Gt: 'false', ast.LtE: 'true', ast.GtE: 'false', ast.Lt: 'true'}.get(op)
+    if (l, r) == (b, a):
+        return {ast.Lt: 'false', ast.GtE: 'true', ast.LtE: 'false', ast.Gt: 'true'}.get(op)
+    return None
+
+
+def eq_edge(expr, a, b):
+    """Edge on which a == b is known."""
+    if not (isinstance(expr, ast.Compare) and len(expr.ops) == 1):
+        return None
+    l, r, op = norm(expr.left), norm(expr.comparators[0]), type(expr.ops[0])
+    if {l, r} == {a, b}:
+        return {ast.Eq: 'true', ast.NotEq: 'false'}.get(op)
+    return None
+
+
+def edges_where(cfg, fn):
+    """[(test node, label)] for every test where fn(expr) names the passing label."""
+    out = []
+    for expr, n in cfg.test_nodes.items():
+        lab = fn(expr)
+        if lab in ('true', 'false'):
+            out.append((n, lab))
+    return out
